@@ -278,6 +278,16 @@ func (acs *archiveChunkSource) resolve(records []getRecord, keeper keeperF) ([]r
 			return nil, true, gcBehavior_Block, nil
 		}
 
+		// The batched read paths size buffers from these spans: reject a corrupt reference here.
+		if _, err := acs.aRdr.checkedByteSpan(rc.dataId); err != nil {
+			return nil, false, gcBehavior_Continue, err
+		}
+		if rc.dictId != 0 {
+			if _, err := acs.aRdr.checkedByteSpan(rc.dictId); err != nil {
+				return nil, false, gcBehavior_Continue, ErrInvalidDictionaryRange
+			}
+		}
+
 		resolved = append(resolved, rc)
 		hits = append(hits, i)
 	}
